@@ -292,6 +292,7 @@ def aux_prebuild():
     """setup: compile the auxiliary programs of the quick tier."""
     from concurrent.futures import ThreadPoolExecutor
     jobs = [(n, std) for n in ("conv_grid", "archetypes", "noexcept_table") for std in ("11", "17", "20")]
+    jobs += [("max_grid", "20"), ("cmp_grid", "17"), ("cmp_grid", "20")]
     with ThreadPoolExecutor(max_workers=9) as ex:
         list(ex.map(lambda j: _aux_build_run(j[0], j[1]), jobs))
 
@@ -543,3 +544,24 @@ def replay_cx(prop, path):
         return 1
     print("[replay] batch compiles and compile-time and run-time traces agree")
     return 0
+
+
+# ------------------------------------------------------------------------------------------ C12 / C16 grids
+def c12(prop, tier, seed, known):
+    q = tier == "quick"
+    v, c = run_aux(prop, "max_grid", ["20"] if q else ["11", "17", "20"], "MAXFAIL", "max.grid",
+                   "max.grid_compile", "MAX", ("g++",) if q else ("g++", "clang++"))
+    c["exhaustive_for"] = "8-bit size_type: every growing operation x start size in [0,max_size()] x count/length in [0,max_size()+3] U {254..258,300}"
+    return dict(coverage=dict(u8_grid=c, extra_evaluations=c["cases"]), violations=v)
+
+
+def c16(prop, tier, seed, known):
+    q = tier == "quick"
+    v, c = run_aux(prop, "cmp_grid", ["17", "20"] if q else ["11", "14", "17", "20", "2b"], "CMPFAIL",
+                   "cmp.grid", "cmp.grid_compile", "CMP", ("g++",) if q else ("g++", "clang++"))
+    c["exhaustive_for"] = "all 121 x 121 pairs of contents over {0,1,2} up to length 4 x 9 capacity pairs x 2 element types; six operators (+ <=> in C++20)"
+    return dict(coverage=dict(comparison_grid=c, extra_evaluations=c["cases"]), violations=v)
+
+
+SPECIALS["C12"] = c12
+SPECIALS["C16"] = c16
